@@ -108,5 +108,5 @@ SetStrParams(st, p) == IF StrParamsValid(p) THEN Ok([st EXCEPT !.str.p = p]) ELS
 DepositSum(st, d) == SumOver([k \in DOMAIN st.str.s |-> IF st.str.s[k].den = d THEN st.str.s[k].dep ELSE 0], DOMAIN st.str.s)
 EscrowBacked(st) == \A d \in Denoms : BalOf(st, "stream", d) = DepositSum(st, d)
 Sustained(st) == \A k \in DOMAIN st.str.s : LET x == st.str.s[k] IN
-                   x.dzt > x.last => x.dep * 1000 >= x.rate * (x.dzt - x.last)
+                   x.dep > 0 /\ x.dzt > x.last => x.dep * 1000 >= x.rate * (x.dzt - x.last)
 =============================================================================
